@@ -12,8 +12,11 @@ if ! git -C /repo apply --check "$DIR/patch.diff" 2>/dev/null; then
 else MODE=""; fi
 if ! git -C /repo apply $MODE "$DIR/patch.diff" 2>/dev/null; then git -C /repo reset -q --hard HEAD; echo "PATCH-DOES-NOT-APPLY"; exit 3; fi
 if git -C /repo diff --name-only --diff-filter=U | grep -q .; then git -C /repo reset -q --hard HEAD; echo "PATCH-DOES-NOT-APPLY"; exit 3; fi
+# the evidence file must describe runs on the unchanged tree only: keep it aside while the seeded tree is checked
+EV="evidence/$PID.json"; [ -f "$EV" ] && cp "$EV" "/tmp/seedcheck.$PID.evidence"
 ./vcheck "$PID" --tier "$TIER" > /tmp/seedcheck.out 2>&1
 RC=$?
+[ -f "/tmp/seedcheck.$PID.evidence" ] && mv "/tmp/seedcheck.$PID.evidence" "$EV"
 git -C /repo reset -q --hard HEAD; git -C /repo clean -fdq -e target
 grep -E "^VIOLATION" /tmp/seedcheck.out | head -5
 grep -E "^KNOWN-FINDING" /tmp/seedcheck.out | head -3
